@@ -132,6 +132,28 @@ func (m GCtxM) MarshalJSON(ctx context.Context) ([]byte, error) {
 	return stdjson.Marshal(string(s))
 }
 
+// the same with a pointer receiver: only *GCtxP is a marshaler, values are reached by address
+type GCtxP struct{ A, B int }
+
+func (m *GCtxP) MarshalJSON(ctx context.Context) ([]byte, error) {
+	q := json.FieldQueryFromContext(ctx)
+	if q == nil {
+		return []byte(`"noquery"`), nil
+	}
+	s, err := q.QueryString()
+	if err != nil {
+		return nil, err
+	}
+	return stdjson.Marshal(string(s))
+}
+
+type c19Holder2 struct {
+	F  GCtxP
+	L  []GCtxP
+	Ar [1]GCtxP
+	P  *GCtxP
+}
+
 type c19Holder struct {
 	X int
 	M GCtxM
@@ -299,6 +321,27 @@ func runC19(c *Ctx) {
 		{[]qn{{name: "L", sub: []qn{{name: "B"}}}}, `{"L":["{\"L\":[\"B\"]}"]}`},
 		{[]qn{{name: "N", sub: []qn{{name: "M", sub: []qn{{name: "A"}}}}}}, `{"N":{"M":"{\"M\":[\"A\"]}"}}`},
 		{[]qn{{name: "X"}, {name: "M", sub: []qn{{name: "B"}}}}, `{"X":1,"M":"{\"M\":[\"B\"]}"}`},
+	}
+	h2 := &c19Holder2{F: GCtxP{1, 2}, L: []GCtxP{{5, 6}}, Ar: [1]GCtxP{{7, 8}}, P: &GCtxP{3, 4}}
+	cases2 := []exp{
+		{[]qn{{name: "F", sub: []qn{{name: "A"}}}}, `{"F":"{\"F\":[\"A\"]}"}`},
+		{[]qn{{name: "L", sub: []qn{{name: "B"}}}}, `{"L":["{\"L\":[\"B\"]}"]}`},
+		{[]qn{{name: "Ar", sub: []qn{{name: "A"}}}}, `{"Ar":["{\"Ar\":[\"A\"]}"]}`},
+		{[]qn{{name: "P", sub: []qn{{name: "A"}}}}, `{"P":"{\"P\":[\"A\"]}"}`},
+		{[]qn{{name: "L"}, {name: "F"}}, `{"F":"noquery","L":["noquery"]}`},
+	}
+	for _, e := range cases2 {
+		var fqs []json.FieldQueryString
+		for _, q := range e.q {
+			fqs = append(fqs, q.toFQS())
+		}
+		fq, err := json.BuildFieldQuery(fqs...)
+		if err != nil {
+			c.Oracle("ctx-marshaler-ptr/build", qString(e.q), err.Error(), "builds", false, "")
+			continue
+		}
+		out, oerr, pan := c19Marshal(fq, h2)
+		c.Oracle("ctx-marshaler-ptr", qString(e.q), fmt.Sprintf("%s err=%v panic=%s", out, oerr, pan), e.want, pan == "" && oerr == nil && string(out) == e.want, "")
 	}
 	for _, e := range cases {
 		var fqs []json.FieldQueryString
